@@ -14,9 +14,24 @@
 (*   "user"     generated user-defined systems (base units from the first    *)
 (*              NCand consistent atoms of each slot + one prefixed form,     *)
 (*              with / without an MKS current, optional declarations)        *)
-(*              x probe units                                                *)
+(*              x probe units; the value class of the base-unit arguments    *)
+(*              (string, Unit object, quantity, alias word) and the call     *)
+(*              form (keyword / positional) rotate over the cases            *)
+(*   "scaled"   user-defined systems whose length / mass / time base units   *)
+(*              carry numeric coefficients (CoefTuples), x atoms and powers  *)
+(*              and products of the base dimensions                          *)
+(*   "validate" creation only: a consistent base tuple (default registry /   *)
+(*              code-unit registry) with ONE slot replaced by every          *)
+(*              candidate unit of every slot, the defaults, their prefixed   *)
+(*              forms and derived-dimension atoms, x coefficient x value     *)
+(*              class x call form: consistent tuples must be accepted and    *)
+(*              usable, inconsistent ones rejected                           *)
 EXTENDS UnitSystem
 CONSTANTS Family, PrefixSet, Variants, CompStride, NCand, KiloPrefix, DeclStride
+\* value classes of a base-unit argument, call forms, (mass, length, time) coefficient tuples of the scaled family
+Styles == <<"str", "unitobj", "quantity", "alias">>
+Forms == <<"kw", "pos">>
+CoefTuples == {<< <<3, 1>>, <<2, 1>>, <<1, 1>> >>, << <<1, 1>>, <<2, 1>>, <<2, 1>> >>, << <<1, 2>>, <<1, 1>>, <<3, 1>> >>}
 
 VARIABLE c
 Init == c = <<>>
@@ -54,6 +69,39 @@ UserProbes == {{<<0, a, 12>>} : a \in CompAtoms} \cup {{<<KiloPrefix, a, 12>>} :
 
 Case(i, spec, x, v) == [sys |-> i, spec |-> spec, x |-> x, var |-> v,
                         route |-> Route(spec, x), exp |-> Target(spec, x)]
+Ones == [i \in 1..NDim |-> ROne]
+MkSpec(b, bc, ds, st, fm, rg) == [base |-> b, bcoef |-> bc, decl |-> ds, reg |-> rg, coef |-> FALSE, short |-> "", style |-> st, form |-> fm]
+Pick(seq, n) == seq[(n % Len(seq)) + 1]
+SumBase(b) == b[1][2] + b[2][2] + b[3][2] + b[4][2]
+ProbeNo(x) == (CHOOSE t \in x : TRUE)[2]
+
+RealSlots == (1..NDim) \ {7}
+\* ---- base units with numeric coefficients ----
+BaseFirst == {a \in FirstOfDim : Atoms[a].dim \in {DBase(1), DBase(2), DBase(3)}}
+BaseFirstAll == {a \in FirstOfDim : \E i \in RealSlots : Atoms[a].dim = DBase(i)}
+ScaledProbes == UserProbes
+                \cup {{<<0, a, e>>} : a \in BaseFirstAll, e \in {24, -12, -24, 36, 6}}
+                \cup {x \in {{<<0, a, e1>>, <<0, b, e2>>} : a \in BaseFirst, b \in BaseFirst, e1 \in {12, -12, 24, -36}, e2 \in {12, -12, -24}} : CompOk(x)}
+ScaledBases == {b \in UserBases : b[4] = Defaults[4]}
+ScaledDecls(cur) == {ds \in DeclSeqs(cur) : ds = <<>> \/ \A ds2 \in DeclSeqs(cur) : ds2 = <<>> \/ ds2[1].x[1][2] >= ds[1].x[1][2]}
+ScaledStyles == <<"quantity", "str", "unitobj">>
+ScaledVars == <<"in_base", "convert_to_base", "gbe", "to_gbe", "sysobj">>
+
+\* ---- validation of base units ----
+CodeSys == CHOOSE i \in DOMAIN Systems : Systems[i].reg = 1
+GoodBaseDefault == <<CHOOSE pa \in SlotCands(1) : pa[1] = 0, CHOOSE pa \in SlotCands(2) : pa[1] = 0, CHOOSE pa \in SlotCands(3) : pa[1] = 0,
+                      Defaults[4], Defaults[5], Defaults[6], NoUnit, Defaults[8], Defaults[9]>>
+GoodBaseCode == Systems[CodeSys].base
+GoodBase(rg) == IF rg = 1 THEN GoodBaseCode ELSE GoodBaseDefault
+DefaultUnits == {Defaults[j] : j \in RealSlots} \ {NoUnit}
+WrongCands == UNION {SlotCands(j) : j \in RealSlots} \cup DefaultUnits
+              \cup {<<KiloPrefix, pa[2]>> : pa \in {q \in DefaultUnits : Atoms[q[2]].pfx}}
+              \cup {<<0, a>> : a \in FirstN(DeclAtomsAll, 3)}
+              \cup {<<0, a>> : a \in {b \in 1..NAtoms : Atoms[b].reg = 1}}
+ValStyleOk(st, cf, rg, pa) == /\ (cf # ROne => st \in {"quantity", "str"})
+                              /\ (st = "alias" => rg = 0)
+                              /\ (Atoms[pa[2]].reg = 1 => rg = 1)
+
 NoSpec == [base |-> <<>>, decl |-> <<>>, reg |-> 0, coef |-> FALSE]
 
 Next ==
@@ -69,8 +117,31 @@ Next ==
              CompOk(x) /\ RegOk(Systems[i], x) /\ VarOk(Systems[i], v) /\ c' = Case(i, Systems[i], x, v)
      \/ /\ Family = "user"
         /\ \E b \in UserBases : \E ds \in DeclSeqs(b[CUR] # NoUnit) : \E x \in UserProbes, v \in Variants :
-             LET spec == [base |-> b, decl |-> ds, reg |-> 0, coef |-> FALSE, short |-> ""] IN
+             LET n == SumBase(b) + ProbeNo(x)
+                 spec == MkSpec(b, Ones, ds, Pick(Styles, n), Pick(Forms, n \div Len(Styles)), 0) IN
              RegOk(spec, x) /\ VarOk(spec, v) /\ c' = Case(0, spec, x, v)
+     \/ /\ Family = "scaled"
+        /\ \E b \in ScaledBases, ct \in CoefTuples : \E ds \in ScaledDecls(b[CUR] # NoUnit) : \E x \in ScaledProbes :
+             LET n == SumBase(b) + ProbeNo(x) + ct[2][1]
+                 v == Pick(ScaledVars, n \div 2)
+                 \* temperature and current base units carry a coefficient too (reusing the mass / time ones)
+                 bc == [Ones EXCEPT ![1] = ct[1], ![2] = ct[2], ![3] = ct[3], ![4] = ct[1], ![6] = IF b[CUR] # NoUnit THEN ct[3] ELSE ROne]
+                 spec == MkSpec(b, bc, ds, Pick(ScaledStyles, n), Pick(Forms, n \div 3), 0) IN
+             RegOk(spec, x) /\ VarOk(spec, v) /\ c' = Case(0, spec, x, v)
+     \/ /\ Family = "validate"
+        /\ \E rg \in {0, 1}, i \in RealSlots, w \in WrongCands, cf \in {ROne, <<2, 1>>}, st \in {Styles[j] : j \in DOMAIN Styles}, fm \in {Forms[j] : j \in DOMAIN Forms} :
+             LET b == [GoodBase(rg) EXCEPT ![i] = w]
+                 spec == MkSpec(b, [Ones EXCEPT ![i] = cf], <<>>, st, fm, rg)
+                 x == {<<GoodBase(rg)[2][1], GoodBase(rg)[2][2], 12>>} IN
+             ValStyleOk(st, cf, rg, w) /\ c' = Case(0, spec, x, "in_base")
+        \* two slots exchanged: every unit is one the system uses, only in the wrong place
+     \/ /\ Family = "validate"
+        /\ \E rg \in {0, 1}, i \in RealSlots, j \in RealSlots, st \in {Styles[k] : k \in DOMAIN Styles}, fm \in {Forms[k] : k \in DOMAIN Forms} :
+             LET g == GoodBase(rg)
+                 b == [g EXCEPT ![i] = g[j], ![j] = g[i]]
+                 spec == MkSpec(b, Ones, <<>>, st, fm, rg)
+                 x == {<<g[2][1], g[2][2], 12>>} IN
+             i < j /\ g[i] # NoUnit /\ g[j] # NoUnit /\ (st = "alias" => rg = 0) /\ c' = Case(0, spec, x, "in_base")
 
 \* ---- model level: the clauses the transcription itself breaks (reported per route, never a verdict) ----
 ModelClauses(S, x) ==
@@ -85,6 +156,10 @@ Export == c # <<>> =>
   PrintT(ToJson([tag |-> "CASE", sys |-> c.sys,
                  base |-> IF c.sys = 0 THEN c.spec.base ELSE <<>>,
                  decl |-> IF c.sys = 0 THEN c.spec.decl ELSE <<>>,
+                 bcoef |-> IF c.sys = 0 THEN c.spec.bcoef ELSE <<>>,
+                 style |-> IF c.sys = 0 THEN c.spec.style ELSE "",
+                 form |-> IF c.sys = 0 THEN c.spec.form ELSE "",
+                 reg |-> c.spec.reg,
                  x |-> c.x, var |-> c.var, route |-> c.route,
                  model |-> ModelClauses(c.spec, c.x)]))
 =============================================================================
